@@ -22,8 +22,10 @@ CACHE_NOTE = ("Theorems are about the Lean store-level model (Model/Cache.lean: 
               "fills its slot from the store, write stores the slot of the value's own call) applied in the completion order of ANY schedule of the "
               "engine model on the physical plan (Model/Phys.lean) built from the stale set the stale check computes; T2 `exec`: for every real run the "
               "model must predict every value computed, read, stored and returned, given the order in which the effects really took place. The "
-              "execution model has no side-effecting producers (dependent sources must be up to date there) and applies a node's effect at its "
-              "completion (justified by C09_*_stable).")
+              "execution model applies a node's effect at its completion (justified by C09_*_stable). Stores that normalise what they are given "
+              "(Model/ExecNorm.lean, `execn`) and producers that rewrite dependent sources during the run (Model/ExecProd.lean, `execp`; private "
+              "producers wired directly to their source) are modelled and tied the same way; producers behind ordering tokens or consumed by other "
+              "calls, and sources that are views of a stored value's storage, are covered by the store-level theorems and the generated histories only.")
 CLAIMED = {
  "C01": ("proof", "Lean 4 proof (inductive invariant over an executable engine model) + trace refinement check",
          "For every reachable state of the engine model a begun node has every (transitive) predecessor completed OK (C01_direct, C01_transitive, "
@@ -40,7 +42,9 @@ CLAIMED = {
          "and deletion in any order (C03_good_preserved); a complete run then leaves every stored value and every node's visible value equal to from-scratch "
          "(C03_history, C03_write_value, C03_good_init). C03_end_to_end: for every schedule of the engine model on the physical plan of the stale set "
          "the stale check computes, a run that returns normally leaves the from-scratch value in every non-source store and in the returned node; "
-         "C03_end_to_end_norm: the same for stores that normalise what they are given (from-scratch values taken through the stores).", "4/C03"),
+         "C03_end_to_end_norm: the same for stores that normalise what they are given (from-scratch values taken through the stores). "
+         "C03_end_to_end_prod: the same with producers that rewrite dependent sources while the run is going on (from scratch = on the sources as "
+         "they are when the run has returned; a refreshed source holds what its producer computes from scratch).", "4/C03"),
  "C04": ("proof", "Lean 4 proof (place-counting invariant) + trace refinement check",
          "No node is begun or enqueued twice in any reachable state, every enqueued node is in exactly one place, only graph nodes run "
          "(C04_once, C04_enqueued_once, C04_place, C04_only_graph_nodes).", "4/C04"),
@@ -51,7 +55,8 @@ CLAIMED = {
          "file stores). C05_stale_check_any_schedule/_result: every engine schedule of the stale check computes isStale and asks each store at most once. "
          "C05_end_to_end(_only_stale): under every schedule exactly the out-of-date stored values are written, up-to-date ones are never recomputed, and "
          "nothing is out of date afterwards. C05_repeated_run_nothing: the graph the engine gets for a run repeated immediately with no output is empty, so "
-         "in every reachable state nothing has begun (no call, no read, no write).", "4/C05"),
+         "in every reachable state nothing has begun (no call, no read, no write). C05_end_to_end_prod_only_stale: with producers, a store (a dependent "
+         "source included) is given a new value only if it is out of date.", "4/C05"),
  "C06": ("proof", "Lean 4 proof (inductive invariants) + trace refinement check",
          "Nothing reachable from a failed node is ever begun; first_node_error is exactly the first recorded failure and is set iff a call failed "
          "(C06_contain, C06_error, C06_error_real, C06_raises_iff, C06_failed_not_ok); C06_fine: the same with the failure_lock block as "
@@ -68,7 +73,8 @@ CLAIMED = {
  "C08": ("proof", "Lean 4 proof (Good preserved by every prefix of every history, no ordering assumption; Good in every reachable state of the run) + cut injection at random events",
          "Whatever subset of writes completed before a cut, in whatever order, Good holds (C08_cut, C08_every_prefix, C08_fault); the next complete run is "
          "correct (C08_next_run_correct); completed writes whose upstream was settled are not out of date afterwards (C08_no_redo). C08_end_to_end_cut / "
-         "_fault: Good holds in EVERY reachable state of every engine schedule of the physical plan, also when store writes raise after taking effect. "
+         "_fault / _cut_prod: Good holds in EVERY reachable state of every engine schedule of the physical plan, also when store writes raise after taking "
+         "effect, and also with producers that rewrite dependent sources while the run is going on. "
          "Process death for file stores is delegated to C11.", "4/C08"),
  "C18": ("proof", "Lean 4 proof (conversion to instants is order-isomorphic for every lawful zone; decision = decision on instants) + per-TZ child-process differential",
          "For every zone satisfying the PEP 495 law and every naive/aware representation, the converted values compare exactly as the instants they denote "
